@@ -13,7 +13,7 @@ import (
 func init() {
 	register(&core.Rule{ID: "C07.9", Prop: "C07", MinSites: 6,
 		Desc: "unchecked acquisition: after a call that produces a descriptor (or an object holding one) together with an error, the error is tested or returned before it is overwritten and before the produced descriptor is handed to any other call",
-		Run: runC07_9})
+		Run:  runC07_9})
 }
 
 // fdProducers: module functions whose error result decides whether a descriptor was produced.
@@ -188,7 +188,7 @@ func runC07_9(c *core.Ctx) {
 func init() {
 	register(&core.Rule{ID: "C07.10", Prop: "C07", MinSites: 3,
 		Desc: "start-up failure cleanup: an error return reached after listeners/pollers were successfully created in this function closes them first (a collected container is ranged over with close, a single object is closed directly) unless they were already handed to an owner that the caller tears down",
-		Run: runC07_10})
+		Run:  runC07_10})
 }
 
 // runC07_10: owner-object typestate for *listener / *netpoll.Poller values created by initListener / OpenPoller.
@@ -284,10 +284,10 @@ func runC07_10(c *core.Ctx) {
 				return true
 			})
 			const (
-				sNone = iota
-				sHeld     // created, error not yet known
-				sOwned    // this function is responsible
-				sSafe     // closed, returned to the caller, or handed to a registered owner
+				sNone  = iota
+				sHeld  // created, error not yet known
+				sOwned // this function is responsible
+				sSafe  // closed, returned to the caller, or handed to a registered owner
 			)
 			closesObj := func(n ast.Node) bool {
 				for _, call := range flow.Calls(n) {
@@ -430,7 +430,7 @@ func runC07_10(c *core.Ctx) {
 func init() {
 	register(&core.Rule{ID: "C07.11", Prop: "C07", MinSites: 1,
 		Desc: "teardown runs once: an exported method that closes the event loops' pollers and listeners after the loops ran (Client.Stop) does so only on the isShutdown()==false edge, so a second call cannot close the same descriptor numbers again",
-		Run: runC07_11})
+		Run:  runC07_11})
 	alias("C19", "C19.6", "C07.11", "stopping twice must be harmless")
 }
 
@@ -478,7 +478,7 @@ func runC07_11(c *core.Ctx) {
 func init() {
 	register(&core.Rule{ID: "C07.12", Prop: "C07", MinSites: 1,
 		Desc: "no close behind the owner's back: once a descriptor was given to a conn constructor and that conn was handed to a loop (Trigger/register), the creating function closes the descriptor only where the hand-over's error is established non-nil; on the success edge the loop owns it and will close it itself",
-		Run: runC07_12})
+		Run:  runC07_12})
 }
 
 func runC07_12(c *core.Ctx) {
@@ -611,7 +611,7 @@ func runC07_12(c *core.Ctx) {
 func init() {
 	register(&core.Rule{ID: "C07.13", Prop: "C07", MinSites: 8,
 		Desc: "the public Conn methods do not touch a released descriptor: every exported method of *conn that reaches a system call on c.fd (directly, through c.write/c.writev or through the loop's write) does so only where c.opened was tested on this path or on the datagram branch (a UDP conn borrows the listener's descriptor); an earlier call of the same callback may have failed and closed the connection, and the number may already be someone else's",
-		Run: runC07_13})
+		Run:  runC07_13})
 }
 
 func runC07_13(c *core.Ctx) {
